@@ -206,8 +206,15 @@ def rule_add(ck):
     if rm and ad:
         b = bind_args(ad[0][1], f, method=True)
         un, uc, ulm, unew = up.params[1:5]
-        ok = dotted(rm[0][1].args[0] if rm[0][1].args else None) == un and dotted(b.get(cur)) == uc and dotted(b.get(lim)) == ulm and \
-            canon(ul.expand(b.get(name, ast.Constant(None)), ad[0][0])) in (f"__phi__({unew}, {un})", f"__phi__({un}, {unew})", unew)
+        from ..rules import specialise
+        ul.gated = True
+        try:
+            nm_x = ul.expand(b.get(name, ast.Constant(None)), ad[0][0])
+        finally:
+            ul.gated = False
+        given = {canon(a_) for a_ in alts_deep(specialise(nm_x, {f"{unew} is None": False, f"{unew} is not None": True}))}
+        missing = {canon(a_) for a_ in alts_deep(specialise(nm_x, {f"{unew} is None": True, f"{unew} is not None": False}))}
+        ok = dotted(rm[0][1].args[0] if rm[0][1].args else None) == un and dotted(b.get(cur)) == uc and dotted(b.get(lim)) == ulm and given == {unew} and missing == {un}
         ck.require(ok, "C12.R1", up, ad[0][1], ok="(current, limit, new name) forwarded by name", bad="update_constraint does not forward current/limit/new_name correctly",
                    sink="update:binding")
 
